@@ -13,6 +13,7 @@
           stream.ReceiveCompleteMessage, stream.readNextFrame,
           stream.StartMessageRead, stream.PrepareCryptoForSecret, stream.RestoreCryptoAfterSecret,
           security.receiveMessage, security.exchangeKey, security.getIDString, security.getToken,
+          security.kerberosReadRequest, security.getRawBytes (the optional raw fields of the token exchange),
           sharedport.readPassSockHeader
 
   What the meters count (each is observable on the implementation or bounded by a measurement):
@@ -437,6 +438,28 @@ def tlsRecv (s : St) : Res Bytes :=
     match getInt s1 with
     | (.error e, s2) => (.error e, s2)
     | (.ok len, s2) => if len < 0 then (.error .malformed, s2) else getBytes len s2
+
+/-- `Authenticator.kerberosReadRequest`: message code, length, then `GetBytes(length)` — the
+    buffer is sized by `GetBytes` only after that many bytes have arrived -/
+def krbRead (s : St) : Res Bytes :=
+  match getInt s with
+  | (.error e, s1) => (.error e, s1)
+  | (.ok _, s1) =>
+    match getInt s1 with
+    | (.error e, s2) => (.error e, s2)
+    | (.ok len, s2) => if len < 0 then (.error .malformed, s2) else getBytes len s2
+
+/-- one optional raw field of the token exchange's error-state branches (`fieldLen`, then
+    `getRawBytes(fieldLen)` when positive) -/
+def rawField (s : St) : Res Unit :=
+  match getInt s with
+  | (.error e, s1) => (.error e, s1)
+  | (.ok len, s1) =>
+    if len > 0 then
+      match getBytes len s1 with
+      | (.error e, s2) => (.error e, s2)
+      | (.ok _, s2) => (.ok (), s2)
+    else (.ok (), s1)
 
 /-- four integers read and ignored -/
 def skipInts : Nat → St → Res Unit
